@@ -272,6 +272,8 @@ def setup(ctx):
 
 def cases(ctx):
     rnd = ctx.rnd
+    if ctx.shard == ctx.nshards - 1:
+        yield ('repo-tests', 0)
     if ctx.shard == 0:
         for src in ['a = hl\npush(hl[0], 9)\na', 'x = hl\ny = hl\npush(x, 1)\ny', 'c = []\nc[0] = hl[0]', 'c = [1]\nc[len(c)] = hl[0]', 'p = items(hd)\np[0][1]',
                     'c = {}\nc["e"] = enumerate(hl)', 'acc = []\nacc += items(hd)', 'hl[1] += hl[0]', 'hd["k"] += [hl]', 'x = hl\ny = hl[0]\nz = [x, y]',
@@ -283,6 +285,15 @@ def cases(ctx):
 
 def run_case(case, ctx):
     W = ctx.W
+    if case[0] == 'repo-tests':
+        # the repository's own tests as a workload for the ownership monitors (every assignment form they execute is judged)
+        from lib import repotests
+        W.case, W.stack, W.state, W.src = case, [], None, '(repository tests)'
+        j0 = W.judged
+        repotests.run(ctx)
+        ctx.count('assignments_judged_during_the_repository_tests', W.judged - j0)
+        W.stack = []
+        return
     if case[0] == 'src':
         lines = case[1].split('\n')
         in_lambda = False
